@@ -521,6 +521,25 @@ def gen_extreme(rng):
 FRACTS = [0.0, 0.25, 0.5, 1.0]
 
 
+def frac_prox(segs, sid, depth=0):
+    """exact (Fraction) actual proximal point of segment `sid` among `segs`, or None"""
+    seg = next((s for s in segs if s[0] == sid), None)
+    if seg is None or depth > len(segs) + 1:
+        return None
+    if seg[1] is not None:
+        return [Fraction(x) for x in seg[1]]
+    if seg[3] is None:
+        return None
+    parent = next((s for s in segs if s[0] == seg[3][0]), None)
+    if parent is None:
+        return None
+    pd, f = [Fraction(x) for x in parent[2]], Fraction(seg[3][1])
+    if f == 1:
+        return pd
+    pp = frac_prox(segs, seg[3][0], depth + 1)
+    return None if pp is None else [a + f * (b - a) for a, b in zip(pp, pd)]
+
+
 def gen_cell(rng, exact):
     n = rng.randint(1, 6)
     e = rng.randint(-20, 20)
@@ -531,23 +550,39 @@ def gen_cell(rng, exact):
             return [rng.randint(-2 ** 12, 2 ** 12) * u for _ in range(3)] + [rng.randint(0, 64) * u / 8]
         m = 10 ** rng.uniform(-3, 3)
         return [mant(rng) * m for _ in range(3)] + [abs(mant(rng)) * 10 ** rng.uniform(-2, 2)]
+
+    def exact_distal(segs, seg):
+        """distal = actual proximal + Pythagorean-quadruple (or axis-aligned) offset: all `**` results exact"""
+        pr = frac_prox(segs + [seg], seg[0])
+        if pr is None:
+            return
+        delta = pyth(rng) if rng.random() < 0.8 else [rng.randint(1, 4096), 0, 0]
+        d = [float(pr[i] + Fraction(delta[i]) * Fraction(u)) for i in range(3)]
+        r = rng.random()
+        seg[2] = d + [float(pr[3]) if r < 0.3 else seg[2][3]]
     ids = rng.sample(range(0, 12), n)
     segs = []
     for i, sid in enumerate(ids):
         d = pt()
         if i == 0:
-            segs.append([sid, pt() if rng.random() < 0.93 else None, d, None])
+            seg = [sid, pt() if rng.random() < 0.93 else None, d, None]
+            if exact:
+                exact_distal(segs, seg)
+            segs.append(seg)
             continue
         pid = rng.choice(ids[:i]) if rng.random() < 0.95 else rng.choice(ids + [99])
         r = rng.random()
         f = rng.choice(FRACTS) if (exact or r < 0.5) else rng.random()
         own = rng.random() < 0.35
         p = pt() if own else None
+        seg = [sid, p, d, [pid, f]]
+        if exact and rng.random() < 0.9:
+            exact_distal(segs, seg)
         if rng.random() < 0.08:                      # zero-length child at the attachment point
-            parent = next(s for s in segs if s[0] == pid) if pid != 99 and any(s[0] == pid for s in segs) else None
-            if parent is not None and f == 1.0:
-                d = list(parent[2][:3]) + [parent[2][3] if rng.random() < 0.5 else d[3]]
-        segs.append([sid, p, d, [pid, f]])
+            parent = next((s for s in segs if s[0] == pid), None)
+            if parent is not None and f == 1.0 and p is None:
+                seg[2] = list(parent[2][:3]) + [parent[2][3] if rng.random() < 0.5 else d[3]]
+        segs.append(seg)
     if rng.random() < 0.04 and n >= 2:
         segs[0][1] = None
         segs[0][3] = [segs[-1][0], rng.choice(FRACTS)]          # parent cycle
@@ -698,12 +733,12 @@ def run(ctx):
     m = ctx.search_mult
     run_cases(ctx, [json.loads(json.dumps(c)) for c in CORPUS], "corpus")
     rng = ctx.rng
-    run_cases(ctx, [gen_exact(rng) for _ in range(ctx.n(1200, 12000) * m)], "exact")
-    run_cases(ctx, [gen_general(rng) for _ in range(ctx.n(2000, 20000) * m)], "general")
-    run_cases(ctx, [gen_grid(rng) for _ in range(ctx.n(800, 8000) * m)], "grid")
-    run_cases(ctx, [gen_extreme(rng) for _ in range(ctx.n(150, 1500))], "extreme")
-    run_cases(ctx, [gen_cell(rng, True) for _ in range(ctx.n(500, 5000) * m)], "cell-exact")
-    run_cases(ctx, [gen_cell(rng, False) for _ in range(ctx.n(500, 5000) * m)], "cell-general")
+    run_cases(ctx, [gen_exact(rng) for _ in range(ctx.n(2000, 36000) * m)], "exact")
+    run_cases(ctx, [gen_general(rng) for _ in range(ctx.n(4000, 60000) * m)], "general")
+    run_cases(ctx, [gen_grid(rng) for _ in range(ctx.n(1500, 24000) * m)], "grid")
+    run_cases(ctx, [gen_extreme(rng) for _ in range(ctx.n(200, 3000))], "extreme")
+    run_cases(ctx, [gen_cell(rng, True) for _ in range(ctx.n(1000, 15000) * m)], "cell-exact")
+    run_cases(ctx, [gen_cell(rng, False) for _ in range(ctx.n(1000, 15000) * m)], "cell-general")
 
 
 def regenerate(ctx):
